@@ -4,7 +4,9 @@ EXCEL_EPOCH = datetime.datetime(1900, 1, 1)
 
 
 def number_to_datetime(value):
-    offset = 2 if value > 58 else 1
+    # Excel treats 1900 as a leap year: serial 59 is Feb 28, 1900, serial
+    # 60 the non-existent Feb 29 and serial 61 is Mar 1, 1900.
+    offset = 2 if int(value) > 59 else 1
     delta = datetime.timedelta(
         days=int(value) - offset, seconds=(value % 1) * 24 * 60 * 60)
     return EXCEL_EPOCH + delta
